@@ -67,6 +67,28 @@ func scenarioWF(sc *scenario) bool {
 			}
 		}
 	}
+	// symbols: distinct among the keys of a dropped table, and among the keys a ModifyTable drops / re-points
+	for _, c := range sc.cs {
+		seen := map[int]bool{}
+		switch c.kind {
+		case 'D':
+			for _, f := range c.fks {
+				if seen[f.sym] {
+					return false
+				}
+				seen[f.sym] = true
+			}
+		case 'M':
+			for _, tc := range c.tcs {
+				if tc.kind == '-' || tc.kind == '~' {
+					if seen[tc.f.sym] {
+						return false
+					}
+					seen[tc.f.sym] = true
+				}
+			}
+		}
+	}
 	return true
 }
 
@@ -103,6 +125,27 @@ func scenarioConsistent(sc *scenario) bool {
 		for _, f := range c.declared() {
 			if !tabs[f.ref.name] && !added[f.ref.name] {
 				return false
+			}
+		}
+	}
+	// the keys of dropped tables and the keys a ModifyTable drops / re-points are live
+	live := map[[2]int]bool{}
+	for _, e := range sc.cat.fks {
+		live[[2]int{e[0], e[1]}] = true
+	}
+	for _, c := range sc.cs {
+		switch c.kind {
+		case 'D':
+			for _, f := range c.fks {
+				if !live[[2]int{c.t.name, f.sym}] {
+					return false
+				}
+			}
+		case 'M':
+			for _, tc := range c.tcs {
+				if (tc.kind == '-' || tc.kind == '~') && !live[[2]int{c.t.name, tc.f.sym}] {
+					return false
+				}
 			}
 		}
 	}
